@@ -259,6 +259,15 @@ def check_refuse(case, v):
                    sig=type(e).__name__)
         if files:
             v.fail("refused-but-wrote", f"main({' '.join(args)}) left {sorted(files)} behind", sig="files")
+        # the same refusal in a working directory that does not even have an inputs/ directory: still nothing
+        # may be created
+        k2, e2, listing = boards.run_generator_cli_bare(args)
+        if listing:
+            v.fail("refused-but-wrote", f"main({' '.join(args)}) in an empty directory was refused but left "
+                                        f"{listing} behind", sig="empty-dir")
+        elif k2 == "ok" or (k2 == "exc" and not isinstance(e2, ValueError)):
+            v.fail("bad-parameters-wrong-error", f"main({' '.join(args)}) in an empty directory: "
+                                                 f"{type(e2).__name__ if e2 else 'accepted'}: {e2}", sig="empty-dir")
     else:
         if kind != "ok":
             v.fail("good-parameters-refused", f"main({' '.join(args)}) raised {type(e).__name__}: {e}",
